@@ -50,6 +50,13 @@ func buildKeytab() []accept.KeytabEntry {
 		}
 		kt = append(kt, accept.KeytabEntry{Realm: realm, Name: altName, Kvno: 1, Etype: et, Timestamp: 1500000000,
 			Key: pcommon.RefKey(vh.NewRand("c01kt", realm, "alt", 1, et), et)})
+		// sibling services on the same hosts (same last component), newer entries with the same kvno and etype
+		for kv := uint32(1); kv <= 2; kv++ {
+			kt = append(kt, accept.KeytabEntry{Realm: realm, Name: kmsg.N(2, "ldap", "host.test.gokrb5"), Kvno: kv, Etype: et, Timestamp: 1600000000 + kv,
+				Key: pcommon.RefKey(vh.NewRand("c01kt", realm, "ldap", kv, et), et)})
+		}
+		kt = append(kt, accept.KeytabEntry{Realm: realm, Name: kmsg.N(1, "ldap", "alt.test.gokrb5"), Kvno: 1, Etype: et, Timestamp: 1600000000,
+			Key: pcommon.RefKey(vh.NewRand("c01kt", realm, "ldapalt", 1, et), et)})
 	}
 	return kt
 }
@@ -152,6 +159,21 @@ func catalogue() []defect {
 				c.m.SName = kmsg.N(2, "HTTP", "unknown.test.gokrb5")
 			} else {
 				// with an override the ticket's own sname is irrelevant; break the key instead
+				c.m.ServiceKey = kmsg.Key{Type: c.et, Value: pcommon.RefKey(c.rnd, c.et)}
+			}
+		}},
+		{"tkt-sname-other-service-same-host", "reject", func(c *cas) {
+			// differs from a keytab principal only in the FIRST component; no key for it in the keytab
+			if !c.cfg.override {
+				c.m.SName = kmsg.N(2, "cifs", "host.test.gokrb5")
+			} else {
+				c.m.ServiceKey = kmsg.Key{Type: c.et, Value: pcommon.RefKey(c.rnd, c.et)}
+			}
+		}},
+		{"tkt-sname-prefix-of-keytab-principal", "reject", func(c *cas) {
+			if !c.cfg.override {
+				c.m.SName = kmsg.N(2, "HTTP")
+			} else {
 				c.m.ServiceKey = kmsg.Key{Type: c.et, Value: pcommon.RefKey(c.rnd, c.et)}
 			}
 		}},
@@ -278,7 +300,7 @@ func catalogue() []defect {
 		// ---- don't care (must not panic)
 		{"d-empty-sname", "dontcare", func(c *cas) { c.m.SName = kmsg.N(2) }},
 		{"d-empty-cname", "dontcare", func(c *cas) { c.m.Tkt.CName = kmsg.N(1); c.m.Auth.CName = kmsg.N(1) }},
-		{"d-caddr-without-configured-address", "dontcare", func(c *cas) { c.m.Tkt.CAddr = []kmsg.Addr{addrA}; c.clientAddr = nil }},
+		{"caddr-without-known-client-address", "reject", func(c *cas) { c.m.Tkt.CAddr = []kmsg.Addr{addrA}; c.clientAddr = nil }},
 	}
 }
 
@@ -352,7 +374,7 @@ func TestProp(t *testing.T) {
 		"VerifyAPREQ runs under a virtual clock (testing/synctest) so the exact skew bounds are decided to the nanosecond. distinct = (etype,config,defect list); non-trivial = all")
 	r.Assume("reference acceptor ref/accept and reference crypto ref/kcrypto (RFC-vector self-test on every run)")
 	r.Assume("error codes are observed (histogram) but not judged: the statement fixes accept/reject and the reported identity only")
-	r.Note("not judged (only absence of panics): empty sname/cname lists; ticket with caddr while no client address is configured; sname krbtgt")
+	r.Note("not judged (only absence of panics): empty sname/cname lists; sname krbtgt. A ticket restricted to addresses is not acceptable to a service that does not know the client address (RFC 4120 3.2.3)")
 
 	kt := buildKeytab()
 	gkt := keytab.New()
@@ -478,7 +500,7 @@ func runCase(t *testing.T, r *vh.Run, ck string, c *cas, gkt *keytab.Keytab, kin
 		want = accept.Accept(req, c.kt, rs, now, replaySet) // verdict on the second presentation
 	}
 	// catalogue self-check for single defects
-	if kind == "neutral" && !want.Accept && !want.DontCare && c.cfg.clientAddr != "mismatch" && validBase(c.cfg) {
+	if kind == "neutral" && !want.Accept && !want.DontCare && validBase(c.cfg) {
 		r.Inconclusive(fmt.Sprintf("catalogue: neutral defect %v rejected by the reference under %s: %v", names, c.cfg, want.Reasons))
 		return
 	}
@@ -619,7 +641,7 @@ func singleKey(names []string) string {
 	return strings.Join(s, "+")
 }
 
-func validBase(c config) bool { return c.clientAddr != "mismatch" }
+func validBase(c config) bool { return c.clientAddr != "mismatch" && !(c.requireAddr && c.clientAddr == "") }
 
 var _ = bytes.Equal
 
